@@ -13,6 +13,9 @@ use std::sync::{LockResult, PoisonError, TryLockError, TryLockResult};
 
 use crate::cancel::trigger_cancel_panic;
 use crate::park::ParkError;
+#[cfg(may_verif)]
+use crate::verif::SegQueue;
+#[cfg(not(may_verif))]
 use crossbeam::queue::SegQueue;
 
 use super::blocking::SyncBlocker;
